@@ -82,6 +82,9 @@ KNOWN = {
     "quad_kink_integral_scale": True,
     # K4: percentile_scale returns the unconverged iterate of scipy root
     "K4_percentile_unconverged": True,
+    # ... or the mirror image -x of the crossing (the curve is even in the lag
+    # and root() is free to converge to the negative root)
+    "K4_percentile_negative_root": True,
 }
 
 
@@ -213,6 +216,14 @@ def c03_opt(draw, cls, dim, accuracy):
             opt["nu"] = max(opt["nu"], dim / 2 - 1 + 0.011)
     if cls == "TPLStable" and "alpha" in opt and "hurst" not in opt:
         opt["hurst"] = 0.5
+    # exp(log(hi)) of the shared log-uniform strategy may exceed hi by an ulp
+    for k, (lo, hi, lo_c, hi_c) in gens.opt_bounds(cls, dim).items():
+        if k in opt:
+            v = float(opt[k])
+            if math.isfinite(hi):
+                v = min(v, hi if hi_c else _nx(hi, -1))
+            v = max(v, lo if lo_c else _nx(lo, 1))
+            opt[k] = v
     return {k: float(v) for k, v in opt.items()}
 
 
@@ -351,6 +362,16 @@ def _order_near_integer(spec):
     return _near_int(s) or bool(np.isclose(1 - s, np.around(1 - s))) or bool(np.isclose(s, 1))
 
 
+def _order_amp(spec):
+    """Error amplification of exp_int for an order close to (not at) an integer:
+    inc_gamma's recursion divides a cancelling difference by (order - integer)."""
+    s = _expint_order(spec)
+    if s is None:
+        return 1.0
+    d = abs(float(s) - float(np.around(s)))
+    return 1.0 if d == 0.0 or d > 1e-2 else 1.0 / d
+
+
 def _len_low_in_window(spec):
     if spec["cls"] not in TPL:
         return False
@@ -375,11 +396,11 @@ def _lag_region(spec, r):
         if o["len_low"] > 0 and un["low"] > 0 and r / un["low"] <= WIN:
             return "tpl_zero_window"
     if cls == "Integral":
+        s = 1 + o["nu"] / 2
+        if h * h > 1e-20 * (1 - 1e-6) and not _near_int(s) and o["nu"] * math.log10(1.0 / h) >= 300.0:
+            return "integral_small_lag_nan"
         if h * h <= 1e-20 * (1 + 1e-6):
             return "integral_zero_window"
-        s = 1 + o["nu"] / 2
-        if not _near_int(s) and o["nu"] * math.log10(1.0 / h) >= 300.0:
-            return "integral_small_lag_nan"
     if cls == "Matern" and o["nu"] <= cf.MATERN_GAUSS_SWITCH:
         with mp.workdps(30):
             nu = mp.mpf(o["nu"])
@@ -456,8 +477,9 @@ def check_closed(case, rec):
     if cls in TPL:
         vf = cf.var_factor(cls, spec["len_scale"], spec.get("rescale"), o, dim)
         got = lib(lambda: m.var_raw * vf, _tags=tags)
+        # lu^2H - ll^2H cancels: a few ulps amplified by (fu+fl)/(fu-fl)
         require(
-            abs(got - var) <= 1e-12 * var,
+            abs(got - var) <= (1e-12 + 2e-15 * _tpl_amplification(spec)) * var,
             f"{cls}: var_raw * documented var_factor = {got!r} != var {var!r}",
             dict(tags, fn="var_factor"),
         )
@@ -480,44 +502,60 @@ def check_closed(case, rec):
     # 1e-9 + 1e-9 |rho| (DESIGN); the len_low superposition is a difference of two
     # terms amplified by (fu+fl)/(fu-fl), each carrying a few ulps of special
     # function error: conditioning term 2e-14 * amplification
+    # exp_int of an order s close to (outside the isclose window of) an integer n goes
+    # through inc_gamma's recursion, which divides a cancelling difference by (s - n):
+    # error measured <= 1.5e-15 / |s - n| (<= 7e-11 outside the window; budget
+    # 5e-15 / |s - n|), again amplified by the superposition
+    oamp = _order_amp(spec)
     tol = 1e-9 + 1e-9 * np.abs(rho_o) + (2e-14 * amp if amp > 1 else 0.0)
+    if oamp > 1 and amp > 1:
+        tol = tol + 5e-15 * oamp * amp
     rho_l = np.asarray(lib(m.correlation, rk, _tags=tags), dtype=float)
     cov_l = np.asarray(lib(m.covariance, rk, _tags=tags), dtype=float)
     var_l = np.asarray(lib(m.variogram, rk, _tags=tags), dtype=float)
     require(rho_l.shape == rk.shape, f"correlation returns shape {rho_l.shape} for input {rk.shape}", tags)
 
-    def cmp(name, got, want, tol_):
+    def cmp(name, got, want, tol_, lag, sp):
+        """got ~ want at the lags ``lag`` of the model described by ``sp``."""
+        tol_ = np.broadcast_to(np.asarray(tol_, dtype=float), want.shape)
         bad = ~(np.abs(got - want) <= tol_)  # NaN counts as bad
         with np.errstate(all="ignore"):
             ratio = np.where(np.isfinite(got), np.abs(got - want) / tol_, np.inf)
-        rec.discrepancy(name, float(np.max(ratio)) if np.all(np.isfinite(ratio)) else 0.0, 1.0)
+        if np.all(np.isfinite(ratio)):
+            rec.discrepancy(name, float(np.max(ratio)), 1.0)
         if bad.any():
             j = int(np.argmax(np.where(bad, ratio, -1)))
-            ri = rk[j]
-            key = _lag_region(spec, ri)
-            t = dict(tags, fn=name, h=float(_h_of(spec, ri)), r=float(ri))
+            x = float(lag[j])
+            hx = float(_h_of(sp, x))
+            t = dict(tags, fn=name, h=hx, r=x)
+            key = _lag_region(sp, x)
             if key is not None:
                 t["kind"] = key
             raise Violation(
-                f"{cls}{spec.get('opt')} dim={dim} len_scale={spec['len_scale']!r} rescale={spec.get('rescale')!r}: "
-                f"{name}({ri!r}) = {got[j]!r}, documented closed form {want[j]!r} "
-                f"(|diff| {abs(got[j] - want[j]):.3g}, tol {tol_[j] if np.ndim(tol_) else tol_:.3g}, "
-                f"h = {float(_h_of(spec, ri))!r})",
+                f"{cls}{spec.get('opt')} dim={dim} len_scale={sp['len_scale']!r} rescale={sp.get('rescale')!r}: "
+                f"{name}({x!r}) = {float(got[j])!r}, documented closed form {float(want[j])!r} "
+                f"(|diff| {abs(got[j] - want[j]):.3g}, tol {tol_[j]:.3g}, h = {hx!r})",
                 tags=t,
             )
 
-    cmp("correlation", rho_l, rho_o, tol)
-    cmp("covariance", cov_l, var * rho_o, var * tol + 1e-12 * sill)
-    cmp("variogram", var_l, var * (1 - rho_o) + nugget, var * tol + 1e-12 * sill)
-    # cor(h) against the len_low = 0 form (the documented one-argument function)
+    cmp("correlation", rho_l, rho_o, tol, rk, spec)
+    cmp("covariance", cov_l, var * rho_o, var * tol + 1e-12 * sill, rk, spec)
+    cmp("variogram", var_l, var * (1 - rho_o) + nugget, var * tol + 1e-12 * sill, rk, spec)
+    # cor(h): the documented function of the non-dimensional lag (len_low = 0 form
+    # for the TPL models, whose cor is compared only when len_low = 0)
     if not (cls in TPL and o["len_low"] > 0):
-        hk = rk * _eff_rescale(spec) / spec["len_scale"]
-        sel = np.array([_lag_region(dict(spec, len_scale=1.0, rescale=1.0), x) is None or not _known(_lag_region(dict(spec, len_scale=1.0, rescale=1.0), x), case) for x in hk])
+        unit_spec = dict(spec, len_scale=1.0, rescale=1.0)
+        hk = np.abs(r) * _eff_rescale(spec) / spec["len_scale"]
+        sel = []
+        for x in hk:
+            key = _lag_region(unit_spec, x)
+            sel.append(key is None or not _known(key, case))
+        sel = np.array(sel, dtype=bool)
         if sel.any():
             hh = hk[sel]
             c_o = np.array(cf.cor(cls, dim, o, hh))
             c_l = np.asarray(lib(m.cor, hh, _tags=tags), dtype=float)
-            cmp("cor", c_l, c_o, 1e-9 + 1e-9 * np.abs(c_o))
+            cmp("cor", c_l, c_o, 1e-9 + 1e-9 * np.abs(c_o), hh, unit_spec)
 
 
 # ---------------------------------------------------------------------------
@@ -561,14 +599,16 @@ def gen_ident(draw, tier="quick"):
     return case
 
 
-def _finite(name, arr, r, tags):
+def _finite(name, arr, r, tags, spec=None):
     arr = np.asarray(arr, dtype=float)
     bad = ~np.isfinite(arr)
     if bad.any():
         j = int(np.argmax(bad))
+        x = float(np.asarray(r, dtype=float).ravel()[j])
+        key = _lag_region(spec, x) if spec is not None else None
         raise Violation(
-            f"{name} not finite: {name}({np.asarray(r).ravel()[j]!r}) = {arr.ravel()[j]!r}",
-            tags=dict(tags, fn=name, kind="nonfinite"),
+            f"{tags.get('model')} {name} not finite: {name}({x!r}) = {float(arr.ravel()[j])!r}",
+            tags=dict(tags, fn=name, kind=key or "nonfinite", r=x),
         )
 
 
@@ -604,7 +644,7 @@ def check_ident(case, rec):
     R = np.asarray(lib(fR, r, _tags=tags), dtype=float)
     for nm, a in (("variogram", V), ("covariance", C), ("correlation", R)):
         require(a.shape == r.shape, f"{nm} returns shape {a.shape} for input shape {r.shape}", dict(tags, fn=nm))
-        _finite(nm, a, r, tags)
+        _finite(nm, a, r, tags, spec)
 
     def same(name, a, b, tol_=tol, rr=r, kind="identity"):
         a = np.asarray(a, dtype=float)
@@ -626,7 +666,10 @@ def check_ident(case, rec):
     same("variogram=var+nugget-covariance", V, var + nugget - C)
     same("covariance=var*correlation", C, var * R)
     # correlation(r) = cor(rescale * r / len_scale)
-    h = np.abs(r) * _eff_rescale(spec) / spec["len_scale"]
+    # (h is formed as r / (len_scale / rescale): one ulp of h would otherwise be
+    # amplified by the conditioning of the special functions, e.g. exp_int of an
+    # order close to an integer, which is not what this identity is about)
+    h = np.abs(r) / (spec["len_scale"] / _eff_rescale(spec))
     K = np.asarray(lib(m.cor, h, _tags=tags), dtype=float)
     if cls in TPL and o["len_low"] > 0 and not _len_low_in_window(spec):
         d = float(np.max(np.abs(K - R)))
@@ -639,13 +682,11 @@ def check_ident(case, rec):
                 dict(tags, fn="cor"),
             )
     else:
-        # one ulp of h moves cor by ulp * |h cor'(h)| <= a few 1e-16 (all shipped
-        # correlations have bounded h*cor'(h); JBessel grows like sqrt(h) <= 32)
         jump = [(_lag_region(spec, x) in ("tpl_zero_window", "integral_zero_window")) for x in r]
         sel = ~np.array(jump, dtype=bool)
         if (~sel).any():
             rec.exclude("window_edge_cor_identity")
-        same("correlation=cor(rescale*r/len_scale)", R[sel], K[sel], 1e-12 + 1e-13 * h[sel], r[sel])
+        same("correlation=cor(rescale*r/len_scale)", R[sel], K[sel], 1e-12, r[sel])
     # evenness
     same("variogram even", lib(fV, -r, _tags=tags), V)
     same("covariance even", lib(fC, -r, _tags=tags), C)
@@ -678,8 +719,6 @@ def check_ident(case, rec):
         _finite(name, a_f, rf, tags)
         a_i = np.asarray(lib(f, ri, _what=f"{name}(int64 array)", _tags=t_int), dtype=float)
         same(f"{name} int64", a_i, a_f, rr=ri, kind="int_input")
-        a_l = np.asarray(lib(f, [int(v) for v in ri], _what=f"{name}(list of int)", _tags=t_int), dtype=float)
-        same(f"{name} int list", a_l, a_f, rr=ri, kind="int_input")
         a_s = np.asarray(lib(f, int(ri[0]), _what=f"{name}(python int)", _tags=t_int), dtype=float)
         same(f"{name} python int", a_s.reshape(()), a_f[0], rr=[int(ri[0])], kind="int_input")
     # nugget-aware variants: differ from the plain ones only at r == 0
@@ -693,11 +732,14 @@ def check_ident(case, rec):
     Cn = np.asarray(lib(m.cov_nugget, r, _tags=tags), dtype=float)
     same("vario_nugget", Vn[reg], np.where(zero, 0.0, V)[reg], rr=r[reg], kind="nugget_variant")
     same("cov_nugget", Cn[reg], np.where(zero, sill, C)[reg], rr=r[reg], kind="nugget_variant")
-    if zero.any():
+    if zero.any() and _order_near_integer(spec) and _known("expint_near_integer_order", case):
+        rec.exclude("expint_near_integer_order")  # rho(0) = (s-1) E_round(s)(0) != 1
+    elif zero.any():
         rec.label("lag0")
-        same("variogram(0)=nugget", V[zero], np.full(int(zero.sum()), nugget), rr=r[zero], kind="at_zero")
-        same("covariance(0)=var", C[zero], np.full(int(zero.sum()), var), rr=r[zero], kind="at_zero")
-        same("correlation(0)=1", R[zero], np.ones(int(zero.sum())), 1e-12, rr=r[zero], kind="at_zero")
+        kz = "expint_near_integer_order" if _order_near_integer(spec) else "at_zero"
+        same("variogram(0)=nugget", V[zero], np.full(int(zero.sum()), nugget), rr=r[zero], kind=kz)
+        same("covariance(0)=var", C[zero], np.full(int(zero.sum()), var), rr=r[zero], kind=kz)
+        same("correlation(0)=1", R[zero], np.ones(int(zero.sum())), 1e-12, rr=r[zero], kind=kz)
     # per-axis variants
     anis_o = geo.pad_anis(dim, spec.get("anis", [1.0])) if dim > 1 else np.array([])
     if spec.get("latlon"):
@@ -705,15 +747,29 @@ def check_ident(case, rec):
     for ax in range(dim):
         fac = 1.0 if ax == 0 else float(anis_o[ax - 1])
         ra = np.abs(r) / fac
+        oka = np.array(
+            [
+                not (
+                    _lag_region(spec, x) in ("integral_small_lag_nan", "jbessel_small_lag_underflow")
+                    and _known(_lag_region(spec, x), case)
+                )
+                for x in ra
+            ],
+            dtype=bool,
+        )
+        if not oka.all():
+            rec.exclude("axis_lag_in_nan_region")
+        if not oka.any():
+            continue
         for f, g, name in (
             (m.vario_axis, fV, "vario_axis"),
             (m.cov_axis, fC, "cov_axis"),
             (m.cor_axis, fR, "cor_axis"),
         ):
-            got = lib(f, r, axis=ax, _tags=dict(tags, fn=name, kind="axis_variant"))
-            want = lib(g, ra, _tags=tags)
+            got = lib(f, r[oka], axis=ax, _tags=dict(tags, fn=name, kind="axis_variant"))
+            want = lib(g, ra[oka], _tags=tags)
             tl = tol if name != "cor_axis" else 1e-12
-            same(f"{name}({ax})", got, want, tl, kind="axis_variant")
+            same(f"{name}({ax})", got, want, tl, rr=r[oka], kind="axis_variant")
     # spatial variants with the independent rotation / stretch
     if not spec.get("latlon"):
         pos = np.array(case["pos"], dtype=float).reshape(dim, -1) * case["pos_scale"] * spec["len_scale"]
@@ -726,7 +782,8 @@ def check_ident(case, rec):
         # jumps of registered findings would be hit only by chance: skip those lags
         ok = np.array([_lag_region(spec, x) is None for x in rad], dtype=bool)
         if ok.any():
-            tsp = (1e-12 + 1e-14 * cond * slope)
+            # + evaluation noise of exp_int next to an integer order (see _order_amp)
+            tsp = 1e-12 + 1e-14 * cond * slope + 5e-15 * _order_amp(spec)
             for f, g, name, sc in (
                 (m.vario_spatial, fV, "vario_spatial", var),
                 (m.cov_spatial, fC, "cov_spatial", var),
@@ -754,7 +811,8 @@ def check_ident(case, rec):
                 want = np.asarray(lib(g, chord, _tags=tags), dtype=float)
                 hmax = float(np.max(chord)) * _eff_rescale(spec) / spec["len_scale"]
                 slope = max(1.0, math.sqrt(hmax)) if cls == "JBessel" else 1.0
-                same(name, got[ok], want[ok], 1e-12 * sc * slope, rr=zeta[ok], kind="yadrenko_variant")
+                tya = (1e-12 * slope + 5e-15 * _order_amp(spec)) * sc
+                same(name, got[ok], want[ok], tya, rr=zeta[ok], kind="yadrenko_variant")
 
 
 # ---------------------------------------------------------------------------
@@ -974,6 +1032,9 @@ def _kinked(spec):
     return False
 
 
+LIB_RTOL = 1e-3  # integral_scale setter: "could not be set correctly" beyond this
+
+
 def _int_tolerance(spec):
     """(tolerance, why).  Closed-form overrides: rounding.  Default QUADPACK
     integral (epsabs = epsrel = 1.5e-8 requested): 1e-6 (DESIGN budget)."""
@@ -1012,8 +1073,9 @@ def check_intscale(case, rec):
         region = "K3_matern_gauss_integral_scale"
     elif cls == "JBessel":
         region = "jbessel_integral_scale_quadpack"
-    elif _kinked(spec):
+    elif cls in gens.COMPACT:
         region = "quad_kink_integral_scale"
+        rec.label("kinked_edge" if _kinked(spec) else "smooth_edge")
     if cls == "Rational" and o["alpha"] < 0.75:
         rec.label("rational_heavy_tail")
 
@@ -1027,19 +1089,24 @@ def check_intscale(case, rec):
             require(abs(ana - want) <= 1e-8 * abs(want), f"oracle self-check: quadrature {want!r} vs textbook {ana!r}", dict(tags, kind="oracle"))
         got = float(lib(lambda: m.integral_scale, _what="integral_scale", _tags=tags))
         e = abs(got - want) / abs(want) if math.isfinite(got) else math.inf
+        tol_ = tol
         if region is not None and _known(region, case):
-            # the library's own acceptance threshold for an integral scale is
-            # rtol 1e-3 (integral_scale setter); K3 / JBessel exceed even that
             rec.exclude(region)
-            return want
-        rec.discrepancy("integral_scale", e if math.isfinite(e) else 0.0, tol)
-        if not e <= tol:
+            if region != "quad_kink_integral_scale":
+                return want  # K3 / JBessel: off by more than any budget
+            # compact support: still held to the library's own acceptance
+            # threshold for an integral scale (rtol 1e-3 in the setter)
+            tol_ = LIB_RTOL
+            rec.discrepancy("integral_scale_compact_vs_1e-6", e if math.isfinite(e) else 0.0, 1e-6)
+        else:
+            rec.discrepancy("integral_scale", e if math.isfinite(e) else 0.0, tol_)
+        if not e <= tol_:
             t = dict(tags, fn="integral_scale")
             if region is not None:
                 t["kind"] = region
             raise Violation(
                 f"{cls}{spec.get('opt')} dim={dim} len_scale={len_scale!r} rescale={spec.get('rescale')!r}: {what} "
-                f"integral_scale = {got!r}, integral of the documented correlation = {want!r} (rel {e:.3g}, tol {tol:.1g})",
+                f"integral_scale = {got!r}, integral of the documented correlation = {want!r} (rel {e:.3g}, tol {tol_:.1g})",
                 tags=t,
             )
         return want
@@ -1048,7 +1115,7 @@ def check_intscale(case, rec):
         m = lib(build_model, spec, _tags=tags)
         compare(m, spec["len_scale"], "reported")
         anis_o = geo.pad_anis(dim, spec.get("anis", [1.0])) if dim > 1 else np.array([])
-        if region is None or not _known(region, case):
+        if region is None or not _known(region, case) or region == "quad_kink_integral_scale":
             isv = np.asarray(lib(lambda: m.integral_scale_vec, _tags=tags), dtype=float)
             base = float(m.integral_scale)
             want = base * np.concatenate(([1.0], anis_o))
@@ -1090,7 +1157,7 @@ def check_intscale(case, rec):
         if tpl_low:
             rec.label("set_rejected_tpl_len_low")  # documented ValueError, accepted
             return
-        if region is not None and _known(region, case):
+        if region is not None and region != "quad_kink_integral_scale" and _known(region, case):
             rec.exclude(region)
             return
         raise Violation(
@@ -1103,20 +1170,24 @@ def check_intscale(case, rec):
             tags=dict(tags, kind="exception", exc=type(exc).__name__),
         ) from exc
     rec.label("set_accepted")
+    kset = region or "integral_scale_set"
+    compact_known = False
     if region is not None and _known(region, case):
         rec.exclude(region)
-        return
+        if region != "quad_kink_integral_scale":
+            return
+        compact_known = True
     got = float(lib(lambda: m.integral_scale, _tags=tags))
     # the library's documented acceptance (else ValueError) is rtol 1e-3; where the
     # integral scale is proportional to len_scale the constructor is exact up to
     # the accuracy of the getter
-    tset = 1e-3 if tpl_low else max(tol, 1e-9)
+    tset = LIB_RTOL if (tpl_low or compact_known) else max(tol, 1e-9)
     e = abs(got - main) / main
     rec.discrepancy("integral_scale_set", e, tset)
     require(
         e <= tset,
         f"{cls}{spec.get('opt')}: Model(integral_scale={main!r}).integral_scale = {got!r} (rel {e:.3g})",
-        dict(tags, kind="integral_scale_set"),
+        dict(tags, kind=kset),
     )
     # ... and the model it produced really has that integral scale (oracle)
     ls_new = float(m.len_scale)
@@ -1129,7 +1200,7 @@ def check_intscale(case, rec):
             e <= tset,
             f"{cls}{spec.get('opt')}: Model(integral_scale={main!r}) has len_scale {ls_new!r} whose documented "
             f"correlation integrates to {want!r} (rel {e:.3g})",
-            dict(tags, kind="integral_scale_set"),
+            dict(tags, kind=kset),
         )
     else:
         rec.exclude("oracle_inaccurate")
@@ -1137,20 +1208,20 @@ def check_intscale(case, rec):
         require(
             np.allclose(m.anis, anis_want, rtol=1e-12, atol=0),
             f"anis after integral_scale={s2['integral_scale']!r}: {m.anis} (expected {anis_want})",
-            dict(tags, kind="integral_scale_set", fn="anis"),
+            dict(tags, kind=kset, fn="anis"),
         )
     vec = np.concatenate(([1.0], anis_want))
     isv = np.asarray(lib(lambda: m.integral_scale_vec, _tags=tags), dtype=float)
     require(
         np.allclose(isv, main * vec, rtol=tset, atol=0),
         f"integral_scale_vec {isv} != prescribed {main * vec}",
-        dict(tags, kind="integral_scale_set", fn="integral_scale_vec"),
+        dict(tags, kind=kset, fn="integral_scale_vec"),
     )
     lsv = np.asarray(lib(lambda: m.len_scale_vec, _tags=tags), dtype=float)
     require(
         np.allclose(lsv, ls_new * vec, rtol=1e-12, atol=0),
         f"len_scale_vec {lsv} != len_scale * [1, anis] {ls_new * vec}",
-        dict(tags, kind="integral_scale_set", fn="len_scale_vec"),
+        dict(tags, kind=kset, fn="len_scale_vec"),
     )
 
 
@@ -1167,6 +1238,24 @@ def gen_percentile(draw, tier="quick"):
             st.sampled_from([0.01, 0.1, 0.5, 0.9, 0.99]),
         )
     )
+    if draw(st.floats(0, 1)) < 0.25:
+        # steep / rough correlations: the hard cases for a derivative based root finder
+        cls = draw(st.sampled_from(["TPLSimple", "SuperSpherical", "JBessel", "Integral", "TPLExponential", "TPLGaussian", "TPLStable", "Stable", "Matern"]))
+        dim = draw(st.sampled_from(gens.valid_dims(cls)))
+        spec["cls"], spec["dim"] = cls, dim
+        if cls in ("TPLSimple", "SuperSpherical", "JBessel"):
+            spec["opt"] = {"nu": draw(st.floats(5.0, 50.0))}
+        elif cls == "Integral":
+            spec["opt"] = {"nu": draw(logfloat(0.05, 0.5))}
+        elif cls == "Matern":
+            spec["opt"] = {"nu": draw(logfloat(0.2, 0.5))}
+        elif cls == "Stable":
+            spec["opt"] = {"alpha": draw(st.floats(0.3, 0.6))}
+        else:
+            spec["opt"] = {"hurst": draw(st.floats(0.1001, 0.2)), "len_low": 0.0}
+            if cls == "TPLStable":
+                spec["opt"]["alpha"] = draw(st.floats(0.3, 2.0))
+        pf = draw(st.sampled_from([0.01, 0.05, 0.5, 0.9, 0.99]))
     return {"spec": spec, "pfrac": float(pf)}
 
 
@@ -1237,6 +1326,10 @@ def check_percentile(case, rec):
         f"percentile_scale({per!r}) = {got!r}; first lag with 1 - correlation = per is {want!r} "
         f"(1 - rho(result) - per = {1 - rho - per:.3g})"
     )
+    if math.isfinite(got) and got < 0 and res <= 1e-6 and abs(got) <= want * (1 + 1e-3):
+        rec.label("percentile_negative_root")
+        _finding(rec, case, "K4_percentile_negative_root", msg, tags)
+        return
     if not ok_root and _root_signature(m, per):
         rec.label("percentile_unconverged")
         _finding(rec, case, "K4_percentile_unconverged", msg, tags)
@@ -1247,9 +1340,19 @@ def check_percentile(case, rec):
 # ---------------------------------------------------------------------------
 
 SUBS = [
-    Sub("closed_form", gen_closed, check_closed, quick=3000, thorough=80000, shards_quick=5, shards_thorough=8),
-    Sub("identities", gen_ident, check_ident, quick=1600, thorough=40000, shards_quick=4, shards_thorough=8),
+    Sub("closed_form", gen_closed, check_closed, quick=3000, thorough=60000, shards_quick=5, shards_thorough=8),
+    Sub("identities", gen_ident, check_ident, quick=1600, thorough=30000, shards_quick=4, shards_thorough=8),
     Sub("user_subclass", gen_user, check_user, quick=300, thorough=6000, shards_quick=1, shards_thorough=2),
-    Sub("integral_scale", gen_intscale, check_intscale, quick=240, thorough=5000, shards_quick=4, shards_thorough=8, shrink_quick=False),
+    # the mpmath quadrature costs 0.1 - 3 s per case (Matern nu ~ 20, JBessel)
+    Sub(
+        "integral_scale",
+        gen_intscale,
+        check_intscale,
+        quick=200,
+        thorough=4000,
+        shards_quick=4,
+        shards_thorough=8,
+        shrink_quick=False,
+    ),
     Sub("percentile", gen_percentile, check_percentile, quick=400, thorough=10000, shards_quick=2, shards_thorough=6),
 ]
